@@ -64,8 +64,10 @@ Fixpoint all_returned (l : list foutcome) : option (list (list N)) :=
   | FRaised _ :: _ => None
   end.
 
-(* _with_hilbert_distance_column, the key column only: None = a partition raises
-   (ZeroDivisionError: a zero width that + 1.0 does not widen) *)
+(* _with_hilbert_distance_column, the key column only: None = a partition raises (the
+   float model of hilbert_distance has no raising path for a well-formed total_bounds
+   tuple since _data2coord handles a zero width itself; kept so that a model that
+   raises can never be mistaken for agreement) *)
 Definition f_with_hilbert_distance_column (tb : frow) (p : nat) (parts : list (list frow))
   : option (list (list N)) :=
   all_returned (map (f_partition_keys tb p) parts).
